@@ -8,6 +8,7 @@ import (
 	"github.com/emersion/go-imap/v2"
 	"github.com/emersion/go-imap/v2/internal"
 	"github.com/emersion/go-imap/v2/internal/imapwire"
+	"github.com/emersion/go-imap/v2/internal/utf7"
 )
 
 func getSelectOpts(options *imap.ListOptions) []string {
@@ -72,7 +73,10 @@ func (c *Client) List(ref, pattern string, options *imap.ListOptions) *ListComma
 			enc.Atom(selectOpts[i])
 		})
 	}
-	enc.SP().Mailbox(ref).SP().String(pattern)
+	// The pattern is a mailbox name with wildcards: the server decodes it from
+	// modified UTF-7 like any other mailbox name
+	encodedPattern, _ := utf7.Encoding.NewEncoder().String(pattern)
+	enc.SP().Mailbox(ref).SP().String(encodedPattern)
 	if returnOpts := getReturnOpts(options); len(returnOpts) > 0 {
 		enc.SP().Atom("RETURN").SP().List(len(returnOpts), func(i int) {
 			opt := returnOpts[i]
